@@ -17,56 +17,186 @@ type jsEvent struct {
 	Kind string    // begin | end | name | value
 	Name string    // for name events: the constant
 	Val  ssa.Value // for value events: the value written (string arg, int arg, or marshalled value)
+	Path string    // for value events: the access path of Val, in terms of the function the events are reported for
 	Pos  token.Pos
 }
 
-// jsEventsOnPath lists the token-level writes to the encoder along a path.
-func jsEventsOnPath(p *BTPath) (evs []jsEvent, unknown []string) {
-	for _, b := range p.Blocks {
-		for _, in := range b.Instrs {
-			call, ok := in.(*ssa.Call)
-			if !ok || call.Call.StaticCallee() == nil {
-				continue
-			}
-			q := qualName(call.Call.StaticCallee())
-			switch {
-			case strings.HasSuffix(q, "jsontext.Encoder).WriteToken"):
-				tok := call.Call.Args[1]
-				switch t := tok.(type) {
-				case *ssa.UnOp:
-					if g, ok := t.X.(*ssa.Global); ok {
-						switch g.Name() {
-						case "BeginObject":
-							evs = append(evs, jsEvent{Kind: "begin", Pos: call.Pos()})
-							continue
-						case "EndObject":
-							evs = append(evs, jsEvent{Kind: "end", Pos: call.Pos()})
-							continue
-						}
+// jsPath is one way through a function that writes JSON tokens, with the
+// helpers it hands the encoder to spliced in.
+type jsPath struct {
+	Events  []jsEvent
+	Unknown []string
+	State   *pathState
+	Succ    bool // the function returns a nil error on this path
+}
+
+func isJSONEncoderPtr(t types.Type) bool {
+	return strings.HasSuffix(typeKey(t), "jsontext.Encoder") && strings.HasPrefix(typeKey(t), "*")
+}
+
+// jsPathsOf enumerates fn's paths with their token events; calls of module
+// helpers that receive the encoder are replaced by the helper's successful
+// paths (arguments substituted for parameters).
+func jsPathsOf(P *Program, fn *ssa.Function, depth int) ([]jsPath, bool) {
+	paths, ok := enumeratePaths(fn)
+	if !ok {
+		return nil, false
+	}
+	var out []jsPath
+	for _, p := range paths {
+		if p.Ret == nil {
+			continue
+		}
+		// variants under construction for this path
+		vars := []jsPath{{State: p.State.clone()}}
+		var inlined []*ssa.Call
+		feasible := true
+		for _, b := range p.Blocks {
+			for _, in := range b.Instrs {
+				call, isCall := in.(*ssa.Call)
+				if !isCall || call.Call.StaticCallee() == nil {
+					continue
+				}
+				h := call.Call.StaticCallee()
+				if evs, unk, isTok := jsTokenEvents(call); isTok {
+					for i := range vars {
+						vars[i].Events = append(vars[i].Events, evs...)
+						vars[i].Unknown = append(vars[i].Unknown, unk...)
 					}
-				case *ssa.Call:
-					if sc := t.Call.StaticCallee(); sc != nil {
-						switch {
-						case strings.HasSuffix(qualName(sc), "jsontext.String"):
-							if s, ok := constString(t.Call.Args[0]); ok {
-								evs = append(evs, jsEvent{Kind: "name", Name: s, Pos: call.Pos()})
-							} else {
-								evs = append(evs, jsEvent{Kind: "value", Val: t.Call.Args[0], Pos: call.Pos()})
-							}
-							continue
-						case strings.HasSuffix(qualName(sc), "jsontext.Int"), strings.HasSuffix(qualName(sc), "jsontext.Uint"), strings.HasSuffix(qualName(sc), "jsontext.Float"), strings.HasSuffix(qualName(sc), "jsontext.Bool"):
-							evs = append(evs, jsEvent{Kind: "value", Val: stripConv(t.Call.Args[0]), Pos: call.Pos()})
-							continue
-						}
+					continue
+				}
+				if !P.isModuleFunc(h) || h.Blocks == nil || depth >= 3 {
+					continue
+				}
+				takesEnc := false
+				for _, a := range call.Call.Args {
+					if isJSONEncoderPtr(a.Type()) {
+						takesEnc = true
 					}
 				}
-				unknown = append(unknown, "WriteToken of "+tok.String())
-			case strings.HasSuffix(q, "json.MarshalEncode"):
-				evs = append(evs, jsEvent{Kind: "value", Val: stripChange(call.Call.Args[1]), Pos: call.Pos()})
+				if !takesEnc {
+					continue
+				}
+				sub, okS := jsPathsOf(P, h, depth+1)
+				if !okS {
+					return nil, false
+				}
+				inlined = append(inlined, call)
+				var next []jsPath
+				for _, v := range vars {
+					for _, q := range sub {
+						if !q.Succ {
+							continue
+						}
+						nv := jsPath{State: v.State.clone()}
+						nv.Events = append(nv.Events, v.Events...)
+						nv.Unknown = append(append(nv.Unknown, v.Unknown...), q.Unknown...)
+						okM := true
+						for k, val := range q.State.eq {
+							if tk, okT := translatePath(k, h, call.Call.Args); okT && !nv.State.assume(tk, true, val) {
+								okM = false
+							}
+						}
+						for k, m := range q.State.ne {
+							if tk, okT := translatePath(k, h, call.Call.Args); okT {
+								for val := range m {
+									if !nv.State.assume(tk, false, val) {
+										okM = false
+									}
+								}
+							}
+						}
+						if !okM {
+							continue
+						}
+						for _, e := range q.Events {
+							if prm, isP := e.Val.(*ssa.Parameter); isP && e.Kind == "value" {
+								for i, hp := range h.Params {
+									if hp == prm && i < len(call.Call.Args) {
+										arg := call.Call.Args[i]
+										if cs, isS := constString(arg); isS {
+											e = jsEvent{Kind: "name", Name: cs, Pos: call.Pos()}
+										} else {
+											e = jsEvent{Kind: "value", Val: stripConv(arg), Path: accessPath(stripConv(arg)), Pos: call.Pos()}
+										}
+									}
+								}
+							} else if e.Kind == "value" {
+								if tp, okT := translatePath(e.Path, h, call.Call.Args); okT {
+									e.Path = tp
+								}
+							}
+							nv.Events = append(nv.Events, e)
+						}
+						next = append(next, nv)
+					}
+				}
+				vars = next
+				if len(vars) == 0 {
+					feasible = false
+				}
 			}
 		}
+		if !feasible {
+			// the helper never succeeds on this path: only failure continuations remain
+			continue
+		}
+		ev := errOperand(p.Ret)
+		succ := ev == nil || isNilConst(ev)
+		if !succ {
+			// returning the verdict of an inlined helper: success variants were spliced in
+			for _, call := range inlined {
+				if ev == errValueOfCall(call) {
+					if nn, _ := knownNonNil(p.Ret.Block(), ev); !nn {
+						succ = true
+					}
+				}
+			}
+		}
+		for _, v := range vars {
+			v.Succ = succ
+			out = append(out, v)
+		}
 	}
-	return
+	return out, true
+}
+
+// jsTokenEvents classifies one call as a token-level write to the encoder.
+func jsTokenEvents(call *ssa.Call) (evs []jsEvent, unknown []string, isTok bool) {
+	q := qualName(call.Call.StaticCallee())
+	switch {
+	case strings.HasSuffix(q, "jsontext.Encoder).WriteToken"):
+		tok := call.Call.Args[1]
+		switch t := tok.(type) {
+		case *ssa.UnOp:
+			if g, ok := t.X.(*ssa.Global); ok {
+				switch g.Name() {
+				case "BeginObject":
+					return []jsEvent{{Kind: "begin", Pos: call.Pos()}}, nil, true
+				case "EndObject":
+					return []jsEvent{{Kind: "end", Pos: call.Pos()}}, nil, true
+				}
+			}
+		case *ssa.Call:
+			if sc := t.Call.StaticCallee(); sc != nil {
+				switch {
+				case strings.HasSuffix(qualName(sc), "jsontext.String"):
+					if s, ok := constString(t.Call.Args[0]); ok {
+						return []jsEvent{{Kind: "name", Name: s, Pos: call.Pos()}}, nil, true
+					}
+					return []jsEvent{{Kind: "value", Val: t.Call.Args[0], Path: accessPath(t.Call.Args[0]), Pos: call.Pos()}}, nil, true
+				case strings.HasSuffix(qualName(sc), "jsontext.Int"), strings.HasSuffix(qualName(sc), "jsontext.Uint"), strings.HasSuffix(qualName(sc), "jsontext.Float"), strings.HasSuffix(qualName(sc), "jsontext.Bool"):
+					v := stripConv(t.Call.Args[0])
+					return []jsEvent{{Kind: "value", Val: v, Path: accessPath(v), Pos: call.Pos()}}, nil, true
+				}
+			}
+		}
+		return nil, []string{"WriteToken of " + tok.String()}, true
+	case strings.HasSuffix(q, "json.MarshalEncode"):
+		v := stripChange(call.Call.Args[1])
+		return []jsEvent{{Kind: "value", Val: v, Path: accessPath(v), Pos: call.Pos()}}, nil, true
+	}
+	return nil, nil, false
 }
 
 // jsonTags returns field name -> json name for a struct type.
@@ -140,7 +270,7 @@ func ruleJS(c *Ctx) {
 	c.Rule("JS-BAL", "an object schema is written as one balanced JSON object: begin, then name/value pairs, then end", 1)
 	c.Rule("JS-KEY", "each attribute name written is followed by the value of the schema field that carries that attribute", 8)
 	c.Rule("JS-EXH", "every attribute of the schema object is written somewhere, and each complex type writes the attribute the specification gives it", 9+5)
-	paths, ok := enumeratePaths(mfn)
+	paths, ok := jsPathsOf(P, mfn, 0)
 	if !ok {
 		c.Rule("JS-BAL", "", 0)
 		c.Unk(fnKey(mfn)+"/paths", P.pos(mfn.Pos()), "path budget exceeded")
@@ -157,10 +287,10 @@ func ruleJS(c *Ctx) {
 	attrByType := map[string]map[string]bool{} // s.Type constant -> names written
 	keyOK := map[string]string{}     // name -> "" ok or reason
 	for _, p := range paths {
-		if p.Ret == nil || !isNilConst(errOperand(p.Ret)) {
+		if !p.Succ {
 			continue
 		}
-		evs, unknown := jsEventsOnPath(p)
+		evs, unknown := p.Events, p.Unknown
 		for _, u := range unknown {
 			c.Rule("JS-BAL", "", 0)
 			c.Unk(fnKey(mfn)+"/token", P.pos(mfn.Pos()), u)
@@ -193,7 +323,7 @@ func ruleJS(c *Ctx) {
 				continue
 			}
 			// which field does the value come from?
-			vp := accessPath(v.Val)
+			vp := v.Path
 			field := ""
 			if vp == typePath {
 				field = "Type"
@@ -223,10 +353,10 @@ func ruleJS(c *Ctx) {
 	condBad := map[string]string{}
 	condSeen := map[string]bool{}
 	for _, p := range paths {
-		if p.Ret == nil || !isNilConst(errOperand(p.Ret)) {
+		if !p.Succ {
 			continue
 		}
-		evs, _ := jsEventsOnPath(p)
+		evs := p.Events
 		if len(evs) == 0 || evs[0].Kind != "begin" {
 			continue
 		}
